@@ -49,7 +49,7 @@ def parseAbbr (abbr : Str) (jsx : Bool) (p : ConvParams) : PM (List ANode) :=
   | .error .fuel => .error .fuel
   | .ok toks => do
     let roots ← parseTokens jsx toks
-    convert roots p (4 * toks.length + 5000)
+    convert roots p (convFuel toks p)
 
 /-! ### snippets.py -/
 def ANode.name : ANode → Option Str | .mk n _ _ _ _ _ => n
